@@ -31,11 +31,52 @@ from harness.props.c02 import GP, gen_cqm, cqm_tokens, cqm_canon_real, cqm_canon
 DOMS = {'SPIN': [-1, 1], 'BINARY': [0, 1], 'INTEGER': [-1, 0, 2], 'REAL': [-1.5, 0, 2]}
 
 
-def fix_value(r, vt):
-    """mostly a domain value, sometimes not (the API allows it)"""
+class Val(float):
+    """a fix value that is handed to dimod as a NumPy scalar: behaves as its numeric value here, prints as its source"""
+
+    def __new__(cls, x, src):
+        o = float.__new__(cls, x)
+        o.src = src
+        return o
+
+    def __repr__(self):
+        return self.src
+
+    __str__ = __repr__
+
+
+def vrepr(a):
+    return a.src if isinstance(a, Val) else fl(a)
+
+
+# NumPy scalar types with magnitudes around the points where `value*value` leaves the type
+NP_VALUES = [('np.int8', [11, 12, -12, 100, 127, -128]), ('np.uint8', [15, 16, 200, 255]),
+             ('np.int16', [181, 182, -200, 32767]), ('np.int32', [46340, 46341, -46341, 65536]),
+             ('np.int64', [46341, -65537, 1048577]), ('np.float32', [0.5, 12, -181.5, 4097]), ('np.float64', [1.25, -4097])]
+
+
+def fix_value(r, vt, narrow=False, np_ok=True):
+    """mostly a domain value, sometimes not (the API allows it); a third of the time a NumPy scalar of some width.
+    `narrow`: the model stores float32 / objects — keep magnitudes small so that exact results still fit"""
+    if np_ok and r.random() < .35:
+        tname, vals = r.choice(NP_VALUES if not narrow else [('np.int8', [11, 12, -12]), ('np.uint8', [15, 16]), ('np.int16', [181, 182]),
+                                                              ('np.int64', [12, -182]), ('np.float32', [0.5, 12])])
+        x = r.choice(vals)
+        return Val(x, f'{tname}({x!r})')
     if r.random() < .7:
         return r.choice(DOMS[vt])
     return r.choice([2, -3, 0.5, 0, 1.25, -1])
+
+
+def representable(P, dtype):
+    """every coefficient of the expected polynomial is exact in the model's dtype (cut the case otherwise)"""
+    for c in P.t.values():
+        if dtype == 'np.float32':
+            if Fraction(float(np.float32(float(c)))) != c or abs(c) >= 2 ** 22:
+                return False
+        elif abs(c.numerator) >= 2 ** 50 or c.denominator > 2 ** 20:
+            return False
+    return True
 
 
 def assignments(order, vts):
@@ -61,14 +102,25 @@ def case_model_fix(ctx, r, B):
         cls = 'QM'
     if not labels:
         return
+    if cls == 'QM':
+        for l in labels:     # squared terms on INTEGER variables, often
+            if vts[l] == 'INTEGER' and r.random() < .5:
+                R.do(f'm.add_quadratic({l!r}, {l!r}, {fl(q8(r))})')
     m = R['m']
     k = r.choice([1, 1, 2, len(labels)])
-    fixed = [(v, fix_value(r, vts[v])) for v in r.sample(labels, min(k, len(labels)))]
+    narrow = dtype in ('np.float32', 'object') or (cls == 'QM' and m.dtype == np.float32)
+    fixed = [(v, fix_value(r, vts[v], narrow=narrow, np_ok=(dtype != 'object'))) for v in r.sample(labels, min(k, len(labels)))]
+    if not representable(GP.of_model(m).substitute({v: (Fraction(0), F(a)) for v, a in fixed}), 'np.float32' if narrow else 'np.float64'):
+        ctx.tick('cut_for_precision')
+        return
     many = len(fixed) > 1 or r.random() < .3
     R.do('n = m.copy()')
     call = (f'n.fix_variables({dict(fixed)!r})' if many and r.random() < .5 else
-            f'n.fix_variables({fixed!r})' if many else f'n.fix_variable({fixed[0][0]!r}, {fl(fixed[0][1])})')
+            f'n.fix_variables({fixed!r})' if many else f'n.fix_variable({fixed[0][0]!r}, {vrepr(fixed[0][1])})')
     R.do(call)
+    for _, a in fixed:
+        if isinstance(a, Val):
+            ctx.tick('fix value: NumPy scalar ' + a.src.split('(')[0])
     nmod = R['n']
     site = f'{cls}.fix_variable' + ('s' if many else '')
     has_self = any(u == v for u, v, _ in m.iter_quadratic())
@@ -173,6 +225,12 @@ def case_cqm_fix(ctx, r, B):
     c = R['c']
     k = r.choice([1, 1, 2, len(labels)])
     fixed = [(v, fix_value(r, vts[v])) for v in r.sample(labels, min(k, len(labels)))]
+    if any(isinstance(a, Val) for _, a in fixed):
+        ctx.tick('fix value: NumPy scalar (CQM)')
+    for _name, _e in [('objective', c.objective)] + [(l_, c.constraints[l_].lhs) for l_ in c.constraint_labels]:
+        if not representable(GP.of_model(_e).substitute({v: (Fraction(0), F(a)) for v, a in fixed}), 'np.float64'):
+            ctx.tick('cut_for_precision')
+            return
     tok0 = cqm_tokens(c)
     labs0, clabs0 = labs(c.variables), labs(c.constraint_labels)
     many = len(fixed) > 1 or r.random() < .4
@@ -180,7 +238,7 @@ def case_cqm_fix(ctx, r, B):
     if many:
         R.do(f'a.fix_variables({(dict(fixed) if r.random() < .5 else fixed)!r}, inplace=True)')
     else:
-        R.do(f'a.fix_variable({fixed[0][0]!r}, {fl(fixed[0][1])})')
+        R.do(f'a.fix_variable({fixed[0][0]!r}, {vrepr(fixed[0][1])})')
     R.do(f'b = c.fix_variables({(dict(fixed) if r.random() < .5 else fixed)!r}, inplace=False)')
     a, b = R['a'], R['b']
     rest = [v for v in c.variables if v not in dict(fixed)]
